@@ -75,7 +75,8 @@ def gen_details(rng, p=0.3, variables=True):
     if rng.random() < p / 3:
         d['parallel_interference_factor'] = rng.choice([2.5, 1, '1.5'])
     if rng.random() < p / 2:
-        d['env'] = rng.choice([{}, {'A': 'x'}, {'PATH': '/bin', 'B': '1'}, {'H': '{HOME}/x', 'J': '{}'}])
+        d['env'] = rng.choice([{}, {'A': 'x'}, {'PATH': '/bin', 'B': '1'}, {'H': '{HOME}/x', 'J': '{}'},
+                               {'JAVA_OPTS': "-Dgreeting=it's"}, {'D': '5" display', 'W': 'C:\\data\\'}, {'Q': '"', 'T': '~/it\'s'}])
     # a YAML null (`~`, `null`, empty value) is accepted for every non-required scalar and means
     # "not set here": the setting of the enclosing level / the default applies
     for k in ('invocations', 'iterations', 'warmup', 'min_iteration_time', 'max_invocation_time',
@@ -160,7 +161,7 @@ def gen_valid(rng):
         if rng.random() < 0.2:
             x['description'] = rng.choice(['an experiment', 'exp {x}'])
         if rng.random() < 0.2:
-            x['data_file'] = rng.choice(['exp%d.data', 'exp{%d}.data']) % i
+            x['data_file'] = rng.choice(['exp%d.data', 'exp{%d}.data', 'nodir/exp%d.data']) % i
         if rng.random() < 0.15:
             x['action'] = 'benchmark'
         if rng.random() < 0.1:
@@ -170,9 +171,12 @@ def gen_valid(rng):
     if len(experiments) == 1 and rng.random() < 0.25:
         # a second experiment that repeats the first (an alias of it in `factor`)
         experiments['X2'] = copy.deepcopy(experiments['X1'])
+    if rng.random() < 0.15:
+        # braces in experiment names
+        experiments = {k.replace('X', 'X{') + '}': v for k, v in experiments.items()}
     cfg = {}
     if rng.random() < 0.3:
-        cfg['default_experiment'] = rng.choice(['all', 'X1'])
+        cfg['default_experiment'] = rng.choice(['all', list(experiments)[0]])
     if rng.random() < 0.2:
         cfg['default_data_file'] = 'my.data'
     if rng.random() < 0.1:
@@ -424,11 +428,16 @@ experiments:
                                      'executors:\n  E1: {executable: x}\nexperiments:\n  X: {suites: [S1], executions: [E1]}\n'),
     ('pif-inf', 'runs: {parallel_interference_factor: .inf}\nbenchmark_suites:\n  S1: {gauge_adapter: Time, command: c, benchmarks: [b]}\n'
                 'executors:\n  E1: {executable: x}\nexperiments:\n  X: {suites: [S1], executions: [E1]}\n'),
+    ('env-lone-apostrophe', 'runs:\n  env: {JAVA_OPTS: "-Dgreeting=it\'s", D: \'5" display\', W: \'C:\\data\\\'}\n'
+                            'benchmark_suites:\n  S1: {gauge_adapter: Time, command: "c %(benchmark)s", benchmarks: [b]}\n'
+                            'executors:\n  E1: {executable: x}\nexperiments:\n  X: {suites: [S1], executions: [E1]}\n'),
+    ('env-tilde-and-quote', 'benchmark_suites:\n  S1: {gauge_adapter: Time, command: c, benchmarks: [{b: {env: {P: "~/it\'s", Q: "\\""}}}]}\n'
+                            'executors:\n  E1: {executable: x}\nexperiments:\n  X: {suites: [S1], executions: [E1]}\n'),
     ('empty-key', 'benchmark_suites:\n  "": {gauge_adapter: Time, command: c, benchmarks: [b]}\n'),
 ]
 
 CLI_VARIANTS = [[], [], [], ['X1'], ['X9'], ['all'], ['-m', 'm1'], ['-m', 'm9'], ['-q'], ['-in', '2'], ['-it', '3'],
-                ['--setup-only']]
+                ['--setup-only'], ['-c'], ['-c'], ['-v'], ['-v'], ['-d', '-v']]
 
 
 def cli_model(args):
@@ -439,7 +448,7 @@ def cli_model(args):
         if a == '-m':
             d['machine'] = args[i + 1]
             i += 1
-        elif a == '-p':
+        elif a in ('-p', '-c', '-v', '-d'):
             pass
         elif a in ('-q', '--setup-only'):
             d['inv_override'] = True
@@ -477,19 +486,32 @@ def run_impl(ck, text, cli, idx):
     return st, phase, where, r
 
 
-def unreadable_files(ck, doc):
-    """configured data-file names that exist in the session's directory but cannot be opened
-    for reading (directories) — the part of the file system the model is told about"""
+def unreadable_files(ck, doc, cli=()):
+    """the part of the file system the model is told about: configured data-file names that
+    cannot be opened the way the session needs them — directories (opened for reading) and,
+    with -c (discard old data: the file is truncated), names in a directory that is missing"""
     names = []
     if isinstance(doc, dict):
-        names.append(doc.get('default_data_file'))
+        dflt = doc.get('default_data_file', 'rebench.data')
+        names.append(dflt)
         exps = doc.get('experiments')
         if isinstance(exps, dict):
             for e in exps.values():
                 if isinstance(e, dict):
                     names.append(e.get('data_file'))
+                    if e.get('action') == 'profile' and not e.get('data_file') and isinstance(dflt, str):
+                        names.append(dflt + '.profiles')
     wd = os.path.join(ck.scratch, 'w')
-    return sorted(set(n for n in names if isinstance(n, str) and n and os.path.isdir(os.path.join(wd, n))))
+    out = set()
+    for n in names:
+        if not isinstance(n, str) or not n or '\0' in n:
+            continue
+        full = os.path.join(wd, os.path.expanduser(n) if False else n)
+        if os.path.isdir(full):
+            out.add(n)
+        elif '-c' in cli and not os.path.isdir(os.path.dirname(full) or wd):
+            out.add(n)
+    return sorted(out)
 
 
 def is_recursive_text(text):
@@ -519,7 +541,7 @@ def check_docs(ck, cases, variant_repaired=True, search=True):
         obs.append((kind, text, cli, valid, yaml_ok and not recursive, st, where, phase, r, group))
         if yaml_ok and not recursive:
             req = {'op': 'c19.compile', 'doc': to_wire(doc), 'repaired': variant_repaired,
-                   'unreadable': unreadable_files(ck, doc)}
+                   'unreadable': unreadable_files(ck, doc, cli)}
             req.update(cli_model(cli))
             ops.append(req)
     answers = iter(ck.model(ops))
@@ -754,8 +776,8 @@ def run(ck):
                       'any traceback of the session is an oracle failure (signature phase: after-compile)']
     cases = load_corpus()
     ck.count('corpus', len(cases))
-    cases += [(k, t, [], k.startswith(('null-details-', 'null-retries-', 'quoted-invocations', 'anchor-merge', 'profile-ok'))) for (k, t) in ANCHOR_TEXTS]
-    cases += [(k + '/-p', t, ['-p'], False) for (k, t) in ANCHOR_TEXTS if k.startswith(('command-', 'quoted-', 'anchor-merge'))]
+    cases += [(k, t, [], k.startswith(('null-details-', 'null-retries-', 'quoted-invocations', 'anchor-merge', 'profile-ok', 'env-lone', 'env-tilde'))) for (k, t) in ANCHOR_TEXTS]
+    cases += [(k + '/-p', t, ['-p'], k.startswith(('env-lone', 'env-tilde'))) for (k, t) in ANCHOR_TEXTS if k.startswith(('command-', 'quoted-', 'anchor-merge', 'env-lone', 'env-tilde'))]
     n = 180 if quick else 3000
     for _ in range(n):
         cfg = gen_valid(ck.rng)
@@ -765,8 +787,10 @@ def run(ck):
         if needs_m:
             cfg.setdefault('machines', {'m1': {}})
         valid = cli not in (['X9'], ['-m', 'm9']) and (not needs_x or 'X1' in cfg['experiments'])
-        if cfg.get('default_experiment') == 'X1' and 'X1' not in cfg['experiments']:
+        if cfg.get('default_experiment', 'all') != 'all' and cfg['default_experiment'] not in cfg['experiments']:
             valid = False
+        if '-c' in cli and unreadable_files(ck, cfg, cli):
+            valid = False   # -c has to truncate a data file whose directory does not exist
         grp = len(cases)
         cases.append(('valid' if valid else 'dangling-cli', dump(cfg), cli, valid, grp))
         ftext = factor(ck.rng, cfg)
